@@ -1039,6 +1039,12 @@ impl RelationalSlab {
         }
     }
 
+    /// Replace the contents with a snapshot's, in place: the engines hold a reference to
+    /// this slab, so a store-level restore cannot swap in a new one.
+    pub fn replace_with(&self, snapshot: RelationalSlabSnapshot) {
+        *self.tables.write() = snapshot.tables;
+    }
+
     /// Update a row's columns.
     ///
     /// # Errors
